@@ -675,6 +675,7 @@ type connScen struct {
 	Seed  uint64 `json:"seed"` // 0 = no random delays
 	Pad   int    `json:"pad"`  // the i-th request is made Pad+37*i bytes bigger
 	Coal  bool   `json:"coal"` // all the messages are handed to the transport in ONE write
+	Trunc int    `json:"trunc"` // before closing, the client sends the first Trunc bytes of one more request (a truncated message)
 	// schedule only (not part of the scenario the model sees: the model covers every schedule)
 	RelMs     int    `json:"rel"`       // the goroutine held at the director's point is released this long after the client's close
 	HoldPoint string `json:"holdpoint"` // every goroutine arriving at this yield point ...
@@ -728,6 +729,9 @@ func (s *connScen) replayText() string {
 	if s.Coal {
 		t += ",coal=1"
 	}
+	if s.Trunc != 0 {
+		t += ",trunc=" + strconv.Itoa(s.Trunc)
+	}
 	return t
 }
 
@@ -777,6 +781,8 @@ func parseConnScenText(t string) (*connScen, error) {
 			s.Pad, _ = strconv.Atoi(v)
 		case "coal":
 			s.Coal = v == "1"
+		case "trunc":
+			s.Trunc, _ = strconv.Atoi(v)
 		default:
 			return nil, errors.New("bad scenario key: " + k)
 		}
@@ -855,6 +861,17 @@ func runConnScenario(ts *testServer, id int, sc *connScen) (*connObs, error) {
 			mu.Lock()
 			obs.ClosedByUs = true
 			mu.Unlock()
+			if sc.Trunc > 0 {
+				// a truncated message: the beginning of a request, then the end of the stream (for the
+				// server: a non-encoding error of Recv, like a plain disconnect)
+				b := goodRequest(9, "ok")
+				tw := make(chan struct{})
+				go func() { _, _ = cl.Write(b[:min(sc.Trunc, len(b)-1)]); close(tw) }()
+				select {
+				case <-tw:
+				case <-time.After(3 * time.Millisecond):
+				}
+			}
 			if sc.Half {
 				_ = cl.CloseWrite()
 			} else {
@@ -1631,6 +1648,24 @@ func genConnScenarios(ctx *Ctx) [][]*connScen {
 			one(&connScen{Msgs: "gg", Rd: -1, Cl: "q", HkOK: true, Pad: pad})
 		}
 	}
+	// 4d. truncated messages: part of a header / a header and part of the body, then close or half-close
+	for _, tr := range []int{3, 8, 20, 60} {
+		for _, m := range []string{"", "g", "gg", "gb"} {
+			for _, half := range []bool{false, true} {
+				for _, cl := range []string{"q", "sent", "w1"} {
+					if !ctx.Thor && (cl == "w1" && half) {
+						continue
+					}
+					sc := &connScen{Msgs: m, Rd: -1, Cl: cl, Half: half, HkOK: true, Trunc: tr, BadV: k}
+					for q := 0; q < strings.Count(m, "g"); q++ {
+						sc.Behav = append(sc.Behav, behAt(k+q))
+					}
+					k++
+					one(sc)
+				}
+			}
+		}
+	}
 	// 5. random schedules: random delays at the yield points, random scripts
 	r := ctx.R
 	for i := ctx.N(120, 1500); i > 0; i-- {
@@ -1646,6 +1681,9 @@ func genConnScenarios(ctx *Ctx) [][]*connScen {
 		if r.Chance(1, 5) {
 			sc.Coal = true
 			sc.Pad = rng.Pick(r, []int{0, 0, 200, 450, 700, 3000})
+		}
+		if r.Chance(1, 6) {
+			sc.Trunc = rng.Pick(r, []int{1, 7, 8, 9, 30})
 		}
 		for j := 0; j < strings.Count(sc.Msgs, "g"); j++ {
 			sc.Behav = append(sc.Behav, rng.Pick(r, behaviours))
@@ -2463,12 +2501,12 @@ func runLtsServer(ctx *Ctx) {
 func init() {
 	register(&Engine{
 		Name: "lts.srv",
-		Rule: "the real kmipserver.Server over unbuffered in-memory connections (half-close capable), in child processes: scripted clients (message sequences over {request, framed-undecodable (3 kinds), non-request message} up to 3 messages, pipelined; reading all / none / one response; closing or half-closing when quiescent, after sending, after k responses, at a random time, or exactly while a server goroutine is held at one of the 5 connection yield points) x handler outcomes {ok, typed error, plain error, panic(string, error, kmipserver.Error, int, Stringer, runtime error), sleep, wait for ctx} x connect hook ok/fails; random scripts with random delays at the yield points; groups of 2-8 concurrent connections; after each scenario: goroutine profile, hooks, liveness probe on a new connection, Shutdown; distinct = distinct (scenario, outcome) line; nontrivial = at least one client message",
+		Rule: "the real kmipserver.Server over unbuffered in-memory connections (half-close capable), in child processes (each child first runs a positive control of the goroutine profile and of the yield points): scripted clients (message sequences over {request, framed-undecodable (3 kinds), non-request message} up to 3 messages, pipelined, optionally made 300..70000 bytes bigger and handed to the transport in ONE write, optionally followed by a truncated message; reading all / none / one response; closing or half-closing when quiescent, after sending, after k responses, at a random time, or exactly while a server goroutine is held at one of the 5 connection yield points) x handler outcomes {ok, typed error, plain error, panic(string, error, kmipserver.Error, int, Stringer, runtime error, nil), sleep, wait for ctx (slow to return), error / panic values whose Error, String or Unwrap methods panic} x connect hook ok/fails; random scripts with random delays at the yield points; groups of 2-8 concurrent connections; iso jobs: one connection blocked (handler never returns / client does not read / connect hook does not return / goroutine held at a yield point, also behind TLS) while 2-5 neighbours must be accepted and served; tls jobs: a peer that never completes the TLS handshake must not keep others from being served; after each scenario: goroutine profile, hooks, server-side disconnect, liveness probe on a new connection, Shutdown; gates: every yield point reached, every directed point held at least once, neighbours served; distinct = distinct (scenario, outcome) line; nontrivial = at least one client message",
 		Run:  runLtsSrv,
 	})
 	register(&Engine{
 		Name: "lts.server",
-		Rule: "the real kmipserver.Server (Serve + Shutdown) over in-memory connections in child processes: 1-2 clients of kind {idle, requests, failing connect hook, disconnecting at a random time, handler waiting for its context} x Shutdown called {at a random time, before any connection, while the accept loop is held between Accept and registration of the 1st/2nd connection (Shutdown completing or not before the loop is released), when quiescent, while a handler is held running}; random delays at all yield points; observed at the return of Shutdown and after settling: Serve's return, running handlers, alive connection goroutines, hook counts and order, Shutdown duration; distinct = distinct (scenario, outcome) line; nontrivial = 2 connections or traffic",
+		Rule: "the real kmipserver.Server (Serve + Shutdown) over in-memory connections in child processes (positive control per child): 1-2 clients of kind {idle, one request, two pipelined requests, failing connect hook, disconnecting at a random time, handler waiting for its context, client that never reads its response} x Shutdown called {at a random time, before any connection, while the accept loop is held between Accept and registration of the 1st/2nd connection (Shutdown completing before / overlapping / released at the same moment as the loop), when quiescent, while a handler is held running, while a connect hook is held running, while a goroutine of a connection is held at each of the 5 connection yield points}; random delays at all yield points; tls jobs: a peer stalled in the TLS handshake (silent / partial record) while Shutdown is called, and while other peers must be served; observed at the return of Shutdown and after settling: Serve's return, running handlers, alive owner and reader/writer goroutines, hook counts and order, Shutdown duration relative to the 3 s grace period, the responses each client received (compared with the handlers that ran), the server-side close of every connection incl. refused ones; gates: Shutdown injected at least once at every directed point; distinct = distinct (scenario, outcome) line; nontrivial = 2 connections or traffic",
 		Run:  runLtsServer,
 	})
 }
